@@ -91,14 +91,18 @@ def _gen(g):
         case["msgs"] = {"a": msgs(3, [5, 300, 1028, 5000, 70000]), "b": []}
         case["max"]["b"] = [g.choice([1, 4, 7, 100]), g.choice([3, 100, 1000])]
         case["bufs"] = None
+        if g.chance(40):
+            case["cancelled_first"] = g.chance(70)
+            case["pieces"] = g.int(2, 3)
+            case["max"]["b"] = [g.choice([1000, 65536, 1 << 20])]      # chunks are taken whole
     elif scenario == "close":
         case["msgs"] = {"a": msgs(3, [1, 100, 4096, 65536]), "b": []}
         case["bufs"] = None
-        case["local"] = {"who": g.choice(["reader", "writer"]), "leftover": g.bool()}
+        case["local"] = {"who": g.choice(["reader", "writer"]), "leftover": g.bool(), "first": g.choice([13, 15, 20, 1000])}
     else:
         case["msgs"] = {"a": msgs(2, [100, 4096]), "b": []}
         case["bufs"] = 16384
-        case["local"] = {"dir": g.choice(["receive", "send"])}
+        case["local"] = {"dir": g.choice(["receive", "send"]), "leftover": g.bool(), "first": g.choice([13, 15, 20, 1000])}
     return case
 
 
@@ -330,8 +334,25 @@ async def scenario_latereader(case, out, stats, w, r):
 async def scenario_pingpong(case, out, stats, w, r):
     """Each message is acknowledged by the reader only after it has been read completely; the writer is silent meanwhile."""
     off = 0
+    if case.get("cancelled_first"):
+        # an earlier receive() was cancelled while it waited (nothing had been sent yet)
+        with anyio.move_on_after(0.02):
+            await r.receive(100)
+            out.bad("stream-corrupted", "pingpong", "data arrived before anything was sent")
+        stats["receive_cancelled_while_waiting"] += 1
     for n in case["msgs"]["a"]:
-        await w.send(pat(off, n))
+        pieces = case.get("pieces", 1)
+        if pieces > 1 and n >= pieces:
+            # the message leaves in several separate sends while nobody is receiving
+            step = n // pieces
+            sent = 0
+            for j in range(pieces):
+                k = step if j < pieces - 1 else n - sent
+                await w.send(pat(off + sent, k))
+                sent += k
+                await anyio.sleep(0.01)
+        else:
+            await w.send(pat(off, n))
         got = 0
         i = 0
         try:
@@ -422,6 +443,54 @@ async def scenario_close(case, out, stats, w, r):
 
 async def scenario_busy(case, out, stats, w, r):
     total = sum(case["msgs"]["a"])
+    if case["local"]["dir"] == "receive" and case["local"].get("leftover"):
+        # data is already buffered in the stream (a small receive left the rest of the chunk behind) when two
+        # tasks call receive() in the same loop cycle: one of them must be rejected, the other gets the next bytes
+        L1 = case["local"].get("first", 1000)
+        await w.send(pat(0, L1))
+        with anyio.fail_after(8):
+            first = await r.receive(10)
+        if first != pat(0, len(first)) or not first:
+            out.bad("stream-corrupted", "busy-leftover", "first chunk")
+        res = {}
+        order = []
+
+        async def rx(tag):
+            try:
+                with anyio.fail_after(5):
+                    res[tag] = ("data", await r.receive(10))
+            except BusyResourceError:
+                res[tag] = ("busy",)
+            except TimeoutError:
+                res[tag] = ("timeout",)
+            except EndOfStream:
+                res[tag] = ("eos",)
+            order.append(tag)
+
+        async with create_task_group() as tg:
+            tg.start_soon(rx, "a")
+            tg.start_soon(rx, "b")
+            await anyio.sleep(0.05)
+            await w.send(pat(L1, 7))          # the connection is alive: more data follows
+        kinds = sorted(v[0] for v in res.values())
+        if "eos" in kinds:
+            out.bad("end-of-stream-on-live-connection", "concurrent-receive", f"{res}")
+        elif kinds not in (["busy", "data"], ["data", "data"]):
+            # (whether the second caller is rejected or simply served next depends on whether the first one is
+            # still inside receive(); what must not happen is a bogus end of stream, a hang, or mixed-up bytes)
+            out.bad("concurrent-receive-blocked", "buffered-data", f"{res}")
+        else:
+            pos = len(first)
+            for tag in order:
+                if res[tag][0] == "data":
+                    d = res[tag][1]
+                    if not d or d != pat(pos, len(d)):
+                        out.bad("stream-corrupted", "busy-leftover", f"offset {pos}: {res}")
+                        break
+                    pos += len(d)
+        stats["busy_with_buffered_data"] += 1
+        stats["busy"] += 1
+        return
     if case["local"]["dir"] == "receive":
         got = {}
         started = anyio.Event()
@@ -527,7 +596,8 @@ def run_case(case) -> Outcome:
     out = Outcome()
     stats = dict.fromkeys(["duplex", "latereader", "close", "busy", "pingpong", "more_than_kernel_capacity",
                            "chunk_split_by_max_bytes", "watchdog_rerun", "stall_after_first_receive",
-                           "stall_after_small_reads"], 0)
+                           "stall_after_small_reads", "busy_with_buffered_data",
+                           "receive_cancelled_while_waiting"], 0)
     hangs = 0
     for attempt in range(3):
         trial = Outcome()
